@@ -121,7 +121,7 @@ fn tier_secs(tier: &str) -> f64 {
     if tier == "thorough" {
         1500.0
     } else {
-        150.0
+        120.0
     }
 }
 
@@ -141,6 +141,7 @@ pub fn cmd_worker(args: &[String]) -> i32 {
     let mut nt_traces = BTreeSet::new();
     let mut states = BTreeSet::new();
     let mut classes_seen: BTreeSet<String> = BTreeSet::new();
+    let known = load_known();
     let mut i = first;
     while i < count {
         if t0.elapsed().as_secs_f64() > max_secs {
@@ -183,7 +184,9 @@ pub fn cmd_worker(args: &[String]) -> i32 {
             }
             classes_seen.insert(class.clone());
             let orig = sc.to_string().len();
-            let (min_sc, n) = minimise(&def, &sc, &class, 4000, 60.0);
+            // recorded findings are only re-observed, not minimised again
+            let is_known = known.findings.iter().any(|k| k.matches(def.id, &class));
+            let (min_sc, n) = if is_known { (sc.clone(), 0) } else { minimise(&def, &sc, &class, 4000, 60.0) };
             sum.shrink_runs += n as u64;
             let rr = run_isolated(&def, &min_sc, false);
             let vv = same_class(&rr, &class).unwrap_or_else(|| v.clone());
@@ -192,7 +195,7 @@ pub fn cmd_worker(args: &[String]) -> i32 {
             writeln!(o, "{}", json!({"type": "violation", "data": fv})).ok();
             o.flush().ok();
         }
-        if classes_seen.len() >= 4 {
+        if classes_seen.iter().filter(|c| !known.findings.iter().any(|k| k.matches(def.id, c))).count() >= 4 {
             break;
         }
         i += stride;
@@ -214,9 +217,19 @@ struct KnownFindings {
 #[derive(Deserialize, Clone)]
 struct KnownFinding {
     property: String,
-    /// matches a violation whose class string ("oracle|sig") starts with this
+    /// matches a violation whose class string ("oracle|sig") starts with this …
+    #[serde(default)]
     class_prefix: String,
+    /// … and contains every one of these
+    #[serde(default)]
+    class_contains: Vec<String>,
     description: String,
+}
+
+impl KnownFinding {
+    fn matches(&self, property: &str, class: &str) -> bool {
+        self.property == property && class.starts_with(&self.class_prefix) && self.class_contains.iter().all(|c| class.contains(c.as_str())) && !(self.class_prefix.is_empty() && self.class_contains.is_empty())
+    }
 }
 
 fn load_known() -> KnownFindings {
@@ -335,9 +348,9 @@ pub fn cmd_check(args: &[String]) -> i32 {
     let mut reported: BTreeMap<String, FoundViolation> = BTreeMap::new();
     for fv in &found {
         let class = fv.violation.class();
-        if let Some(k) = known.findings.iter().find(|k| k.property == id && class.starts_with(&k.class_prefix)) {
+        if let Some(k) = known.findings.iter().find(|k| k.matches(id, &class)) {
             known_runs += 1;
-            if printed_known.insert(k.class_prefix.clone()) {
+            if printed_known.insert(k.description.clone()) {
                 println!("KNOWN-FINDING: property={id} {}", k.description);
             }
             continue;
@@ -488,7 +501,7 @@ pub fn cmd_replay(args: &[String]) -> i32 {
     let mut code = 0;
     for v in &r.violations {
         let class = v.class();
-        if known.findings.iter().any(|k| k.property == id && class.starts_with(&k.class_prefix)) {
+        if known.findings.iter().any(|k| k.matches(id, &class)) {
             if !quiet {
                 println!("KNOWN-FINDING: property={id} class={class}");
             }
